@@ -434,6 +434,15 @@ func runC10(w *fw.Worker) {
 				w.Violation(i, "translated-field-not-found:"+ch.name, lerr.Error(), witness(map[string]any{"leaf": lr.String(), "translated": tt2.String()}))
 				return
 			}
+			// a chain that has no mangler for anything inside this leaf's type must leave the type alone
+			if !ch.strCast && !ch.anonFlat && !(ch.textU && c10Contains(lf.Type, c10IsTextU)) && !c10Contains(lf.Type, c10IsDurOrSet) {
+				orig, oerr := c10Locate(reflect.New(ptrType).Elem(), lr, &c10Chain{name: "none"}, false)
+				if oerr == nil && !c10SameShape(orig.Type(), probe.Type()) {
+					w.Violation(i, "leaf-type-changed-by-a-chain-without-a-mangler-for-it:"+lf.Name, fmt.Sprintf("chain %s: %s became %s", ch.name, orig.Type(), probe.Type()), witness(map[string]any{"leaf": lr.String(), "translated": tt2.String()}))
+					return
+				}
+				w.Count("untouched_leaf_types_checked", 1)
+			}
 			v := gen.GenLeafValue(r, c, lf)
 			fwd, ferr := c10Forward(v, probe.Type(), lf)
 			if ferr != nil {
@@ -500,4 +509,83 @@ func c10ErrClass(err error) string {
 		s = s[:40]
 	}
 	return s
+}
+
+// c10Contains reports whether t, or anything reachable from it through pointers, slices, arrays, maps and struct
+// fields, satisfies pred.
+func c10Contains(t reflect.Type, pred func(reflect.Type) bool) bool {
+	seen := map[reflect.Type]bool{}
+	var walk func(t reflect.Type) bool
+	walk = func(t reflect.Type) bool {
+		if seen[t] {
+			return false
+		}
+		seen[t] = true
+		if pred(t) {
+			return true
+		}
+		switch t.Kind() {
+		case reflect.Ptr, reflect.Slice, reflect.Array:
+			return walk(t.Elem())
+		case reflect.Map:
+			return walk(t.Key()) || walk(t.Elem())
+		case reflect.Struct:
+			for k := 0; k < t.NumField(); k++ {
+				if walk(t.Field(k).Type) {
+					return true
+				}
+			}
+		}
+		return false
+	}
+	return walk(t)
+}
+
+var c10TextUType = reflect.TypeOf((*encoding.TextUnmarshaler)(nil)).Elem()
+
+func c10IsTextU(t reflect.Type) bool {
+	return t.Implements(c10TextUType) || reflect.PtrTo(t).Implements(c10TextUType)
+}
+
+func c10IsDurOrSet(t reflect.Type) bool {
+	return t == reflect.TypeOf(time.Duration(0)) || (t.Kind() == reflect.Map && t.Elem() == reflect.TypeOf(struct{}{}))
+}
+
+// c10SameShape: identical up to struct names and tags (the transformer rebuilds element structs as anonymous structs).
+func c10SameShape(a, b reflect.Type) bool {
+	if a == b {
+		return true
+	}
+	if a.Kind() != b.Kind() {
+		return false
+	}
+	switch a.Kind() {
+	case reflect.Ptr, reflect.Slice:
+		return c10SameShape(a.Elem(), b.Elem())
+	case reflect.Array:
+		return a.Len() == b.Len() && c10SameShape(a.Elem(), b.Elem())
+	case reflect.Map:
+		return c10SameShape(a.Key(), b.Key()) && c10SameShape(a.Elem(), b.Elem())
+	case reflect.Struct:
+		exported := func(t reflect.Type) []reflect.StructField {
+			var out []reflect.StructField
+			for k := 0; k < t.NumField(); k++ {
+				if f := t.Field(k); f.IsExported() {
+					out = append(out, f)
+				}
+			}
+			return out
+		}
+		ea, eb := exported(a), exported(b) // unexported fields are not carried into translated element structs
+		if len(ea) != len(eb) {
+			return false
+		}
+		for k := range ea {
+			if ea[k].Name != eb[k].Name || ea[k].Anonymous != eb[k].Anonymous || !c10SameShape(ea[k].Type, eb[k].Type) {
+				return false
+			}
+		}
+		return true
+	}
+	return false
 }
